@@ -41,7 +41,9 @@ Mechanisms that earlier rounds have used a lot and that you should therefore AVO
 defaults, buffers kept instead of copied, behaviour depending on --debug/-q verbosity or on `python -O`, fixed size limits
 (8 kB, 32768, 65535, 80 columns, 200 levels), one-shot iterables, empty-string arguments, byte-order marks, bare-CR line ends,
 missing final newlines, file names with extra dots, symbolic links, backslash path separators, undecodable bytes, NUL
-characters, non-ASCII package/file names, two-digit tab selectors, side files created on a first run, version-0 carts.
+characters, non-ASCII package/file names, two-digit tab selectors, side files created on a first run, version-0 carts, the order of sections in a .p8 file, a Lua section
+that is last or alone in the file, all-black labels, CRLF in .lua sources, a temporary directory on another file system, `~` in
+paths, nested require() directories, empty packages, `?` in the directory part of a load path, tab-indented directives.
 Look for something else, for example: a mask, shift or bit position that is off by one; signed/unsigned or 7-bit/8-bit handling;
 an inclusive/exclusive range end; integer division or rounding; the order in which two sections / options / passes are applied;
 an interaction between two command-line options or two library features that are each fine alone; a module-level table or
